@@ -43,6 +43,7 @@ type Unit struct {
 	mute      int
 	heapSorts map[string]string
 	heapKinds map[string]string
+	heapTypes map[string]types.Type // value type stored in a field/elem/cell component
 	strLits   map[string]string
 	trusted   map[string]bool
 	notes     map[string]bool
@@ -67,7 +68,7 @@ type allocSite struct {
 
 func NewUnit(eng *Engine, name string, pkg *types.Package) *Unit {
 	return &Unit{eng: eng, Name: name, pkg: pkg, sortSeen: map[string]bool{}, declSeen: map[string]bool{},
-		heapSorts: map[string]string{}, heapKinds: map[string]string{}, strLits: map[string]string{}, trusted: map[string]bool{}, notes: map[string]bool{},
+		heapSorts: map[string]string{}, heapKinds: map[string]string{}, heapTypes: map[string]types.Type{}, strLits: map[string]string{}, trusted: map[string]bool{}, notes: map[string]bool{},
 		specDefs: map[string]*specDef{}, nameCount: map[string]int{}, lemmaAx: map[string]bool{}}
 }
 
@@ -115,6 +116,9 @@ const prelude = `(set-option :produce-models true)
 (assert (forall ((k Int)) (! (=> (>= k 0) (= (pow2 (+ k 1)) (* 2 (pow2 k)))) :pattern ((pow2 (+ k 1))))))
 (assert (forall ((a Int) (b Int)) (! (=> (and (<= 0 a) (<= a b)) (<= (pow2 a) (pow2 b))) :pattern ((pow2 a) (pow2 b)))))
 (declare-fun typeimpl (Int Int) Bool)
+(declare-fun imul (Int Int) Int)
+(assert (forall ((a Int) (b Int)) (! (and (= (imul a b) (imul b a)) (=> (and (>= a 0) (>= b 0)) (>= (imul a b) 0)) (=> (= a 0) (= (imul a b) 0)) (=> (= a 1) (= (imul a b) b)) (=> (and (> a 0) (> b 0)) (and (>= (imul a b) a) (>= (imul a b) b)))) :pattern ((imul a b)))))
+(assert (forall ((a Int) (b Int) (c Int)) (! (=> (and (>= a 0) (<= b c)) (<= (imul a b) (imul a c))) :pattern ((imul a b) (imul a c)))))
 (declare-fun tdivn (Int Int) Int)
 (declare-fun tmodn (Int Int) Int)
 (assert (forall ((a Int) (b Int)) (! (and (=> (and (>= a 0) (> b 0)) (and (<= 0 (tdivn a b)) (<= (tdivn a b) a))) (=> (and (<= a 0) (> b 0)) (and (<= a (tdivn a b)) (<= (tdivn a b) 0))) (=> (and (>= a 0) (< b 0)) (and (<= (- a) (tdivn a b)) (<= (tdivn a b) 0))) (=> (and (<= a 0) (< b 0)) (and (<= 0 (tdivn a b)) (<= (tdivn a b) (- a)))) (=> (= b 1) (= (tdivn a b) a)) (=> (and (> b 0) (>= a b)) (>= (tdivn a b) 1)) (=> (and (> b 0) (>= a 0) (< a b)) (= (tdivn a b) 0))) :pattern ((tdivn a b)))))
@@ -210,6 +214,15 @@ func divTerm(a, b string) string {
 		return fmt.Sprintf("(tdiv %s %s)", a, b)
 	}
 	return fmt.Sprintf("(tdivn %s %s)", a, b)
+}
+
+// mulTerm: a product of two symbolic factors is nonlinear; it becomes the uninterpreted imul with
+// commutativity, sign and monotonicity axioms (same symbol on the code side and the spec side).
+func mulTerm(a, b string) string {
+	if numeralRe.MatchString(a) || numeralRe.MatchString(b) {
+		return fmt.Sprintf("(* %s %s)", a, b)
+	}
+	return fmt.Sprintf("(imul %s %s)", a, b)
 }
 
 func modTerm(a, b string) string {
@@ -350,6 +363,9 @@ func (u *Unit) sortOf(t types.Type) string {
 		u.declRaw("sort$Content", "(declare-sort Content 0)")
 		return "Content"
 	}
+	if gm := u.eng.isGhostMap(t); gm != nil {
+		return "(Array " + u.sortOf(gm.Key()) + " " + u.sortOf(gm.Elem()) + ")"
+	}
 	switch tt := t.Underlying().(type) {
 	case *types.Basic:
 		switch {
@@ -445,6 +461,9 @@ func (u *Unit) zeroOf(t types.Type) string {
 	if t == mathInt {
 		return "0"
 	}
+	if gm := u.eng.isGhostMap(t); gm != nil {
+		return fmt.Sprintf("((as const %s) %s)", u.sortOf(t), u.zeroOf(gm.Elem()))
+	}
 	switch tt := t.Underlying().(type) {
 	case *types.Basic:
 		switch {
@@ -482,7 +501,7 @@ func (u *Unit) zeroOf(t types.Type) string {
 // wfValue returns a well-formedness predicate for a value of Go type t (ranges of integers, slice
 // header sanity), to be assumed for loaded/havoced values.
 func (u *Unit) wfValue(term string, t types.Type, depth int) string {
-	if t == nil || t == mathInt {
+	if t == nil || t == mathInt || u.eng.isGhostMap(t) != nil {
 		return "true"
 	}
 	switch tt := t.Underlying().(type) {
@@ -517,13 +536,13 @@ func (u *Unit) wfValue(term string, t types.Type, depth int) string {
 		}
 		return "(and " + strings.Join(parts, " ") + ")"
 	case *types.Array:
-		if isInteger(tt.Elem()) && tt.Len() <= 64 {
-			// element ranges, as a quantified fact with a pattern
-			lo, hi, ok := intBounds(tt.Elem())
-			if ok {
-				return fmt.Sprintf("(forall ((wfi Int)) (! (and (<= %s (select %s wfi)) (<= (select %s wfi) %s)) :pattern ((select %s wfi))))", smtInt(lo), term, term, smtInt(hi), term)
-			}
+		// array values are normalised: zero outside [0,N); integer elements are in range
+		zero := u.zeroOf(tt.Elem())
+		rng := "true"
+		if lo, hi, ok := intBounds(tt.Elem()); ok {
+			rng = fmt.Sprintf("(and (<= %s (select %s wfi)) (<= (select %s wfi) %s))", smtInt(lo), term, term, smtInt(hi))
 		}
+		return fmt.Sprintf("(forall ((wfi Int)) (! (and %s (=> (or (< wfi 0) (>= wfi %d)) (= (select %s wfi) %s))) :pattern ((select %s wfi))))", rng, tt.Len(), term, zero, term)
 	}
 	return "true"
 }
@@ -630,11 +649,12 @@ func (u *Unit) fieldComp(structT types.Type, field string) (name, sort string) {
 	if s, ok := u.heapSorts[name]; ok {
 		return name, s
 	}
-	st := structT.Underlying().(*types.Struct)
 	var ft types.Type
-	for i := 0; i < st.NumFields(); i++ {
-		if st.Field(i).Name() == field {
-			ft = st.Field(i).Type()
+	if st, isS := structT.Underlying().(*types.Struct); isS {
+		for i := 0; i < st.NumFields(); i++ {
+			if st.Field(i).Name() == field {
+				ft = st.Field(i).Type()
+			}
 		}
 	}
 	if ft == nil {
@@ -653,6 +673,7 @@ func (u *Unit) fieldComp(structT types.Type, field string) (name, sort string) {
 	sort = "(Array Int " + u.sortOf(ft) + ")"
 	u.heapSorts[name] = sort
 	u.heapKinds[name] = "field"
+	u.heapTypes[name] = ft
 	return
 }
 
@@ -720,10 +741,15 @@ func (u *Unit) elemComp(elemT types.Type) (name, sort string) {
 	sort = "(Array Int (Array Int " + u.sortOf(elemT) + "))"
 	u.heapSorts[name] = sort
 	u.heapKinds[name] = "elem"
+	u.heapTypes[name] = elemT
 	return
 }
 
 func (u *Unit) cellComp(t types.Type) (name, sort string) {
+	// pointers to named basic types convert to pointers to their underlying type: one component
+	if b, ok := t.Underlying().(*types.Basic); ok {
+		t = b
+	}
 	name = "C$" + shortType(t)
 	if s, ok := u.heapSorts[name]; ok {
 		return name, s
@@ -731,6 +757,7 @@ func (u *Unit) cellComp(t types.Type) (name, sort string) {
 	sort = "(Array Int " + u.sortOf(t) + ")"
 	u.heapSorts[name] = sort
 	u.heapKinds[name] = "cell"
+	u.heapTypes[name] = t
 	return
 }
 
@@ -756,6 +783,33 @@ func (u *Unit) globalComp(pkgPath, name string, t types.Type) (string, string) {
 	u.heapSorts[n] = s
 	u.heapKinds[n] = "global"
 	return n, s
+}
+
+// heapTyping: every value held in a version of a heap component is a well-formed value of its Go
+// type (integer ranges, slice headers). Stores preserve this; it is assumed for the entry version
+// and for every havoced version, so that specifications reading fields see typed values too.
+func (u *Unit) heapTyping(comp, term string) string {
+	ty, ok := u.heapTypes[comp]
+	if !ok {
+		return ""
+	}
+	switch u.heapKinds[comp] {
+	case "field", "cell":
+		sel := fmt.Sprintf("(select %s hr)", term)
+		wf := u.wfValue(sel, ty, 1)
+		if wf == "true" {
+			return ""
+		}
+		return fmt.Sprintf("(forall ((hr Int)) (! %s :pattern (%s)))", wf, sel)
+	case "elem":
+		sel := fmt.Sprintf("(select (select %s hr) hk)", term)
+		wf := u.wfValue(sel, ty, 1)
+		if wf == "true" {
+			return ""
+		}
+		return fmt.Sprintf("(forall ((hr Int) (hk Int)) (! %s :pattern (%s)))", wf, sel)
+	}
+	return ""
 }
 
 const allocComp = "$alloc"
